@@ -2,7 +2,10 @@
 import MahfModel.Model.Replacement
 import Mathlib.Order.Defs.LinearOrder
 import Mathlib.Order.Basic
+import Batteries.Data.List.Perm
+import Mathlib.Data.Int.Order.Basic
 namespace MahfModel.Replacement
+set_option linter.unusedSectionVars false
 
 theorem range_filterMap_getElem? {α : Type} (l : List α) :
     (List.range l.length).filterMap (l[·]?) = l := by
@@ -27,21 +30,29 @@ theorem subBag_refl {α : Type} (l : List α) : SubBag l l := ⟨[], by simp⟩
 theorem subBag_take_of_perm {α : Type} {s all : List α} (h : s.Perm all) (k : Nat) :
     SubBag (s.take k) all := ⟨s.drop k, by rw [List.take_append_drop]; exact h⟩
 
+/-- The order on objective values is total: any two values are comparable.  Together with
+`Preorder` this is all the theorems need — *not* antisymmetry: `f64` without NaN is such an order in
+which `0.0` and `-0.0` are different values that compare equal. -/
+def TotalLE (F : Type) [LE F] : Prop := ∀ a b : F, a ≤ b ∨ b ≤ a
+
 section order
-variable {F : Type} [LinearOrder F]
+variable {F : Type} [Preorder F] [DecidableLE F] [DecidableLT F]
 
 theorem leO_trans (a b c : Option F) : leO a b = true → leO b c = true → leO a c = true := by
   cases a <;> cases b <;> cases c <;> simp [leO]
   exact le_trans
 
-theorem leO_total (a b : Option F) : (leO a b || leO b a) = true := by
+theorem leO_total (tot : TotalLE F) (a b : Option F) : (leO a b || leO b a) = true := by
   cases a <;> cases b <;> simp [leO]
-  exact le_total _ _
+  exact tot _ _
 
 theorem leInd_trans (a b c : Ind F) : leInd a b = true → leInd b c = true → leInd a c = true :=
   leO_trans _ _ _
 
-theorem leInd_total (a b : Ind F) : (leInd a b || leInd b a) = true := leO_total _ _
+theorem leInd_total (tot : TotalLE F) (a b : Ind F) : (leInd a b || leInd b a) = true :=
+  leO_total tot _ _
+
+theorem not_lt_of_le' {a b : F} (h : a ≤ b) : ¬ b < a := not_lt_of_ge h
 
 theorem keepBetter_length (ps os : Pop F) (r : Pop F) (hl : ps.length = os.length)
     (h : keepBetter ps os = .ok r) : r.length = ps.length := by
@@ -183,5 +194,57 @@ theorem bagDiff_perm {α : Type} [DecidableEq α] (r rest all : List α) (h : (r
       simpa using this
     simp only [bagDiff, List.foldl_cons]
     exact ih (all.erase x) h1.symm
+
+theorem permB_iff {α : Type} [DecidableEq α] {r r' : List α} : permB r r' = true ↔ r.Perm r' := by
+  constructor
+  · intro h
+    simp only [permB, Bool.and_eq_true, beq_iff_eq, List.all_eq_true] at h
+    obtain ⟨hl, hc⟩ := h
+    -- r ≤ r' as multisets and equal length
+    have hsub : List.Subperm r r' := by
+      rw [List.subperm_ext_iff]
+      intro x hx
+      exact Nat.le_of_eq (hc x hx)
+    exact hsub.perm_of_length_le (Nat.le_of_eq hl.symm)
+  · intro h
+    simp only [permB, Bool.and_eq_true, beq_iff_eq, List.all_eq_true]
+    exact ⟨h.length_eq, fun x _ => h.count_eq x⟩
+
+theorem subBagB_perm {α : Type} [DecidableEq α] {r r' : List α} (all : List α) (h : r.Perm r') :
+    subBagB r all = subBagB r' all := by
+  simp only [subBagB]
+  rw [Bool.eq_iff_iff]
+  simp only [List.all_eq_true, decide_eq_true_eq]
+  constructor
+  · intro H x hx; rw [← h.count_eq x]; exact H x (h.mem_iff.2 hx)
+  · intro H x hx; rw [h.count_eq x]; exact H x (h.mem_iff.1 hx)
+
+theorem bagDiff_perm_right {α : Type} [DecidableEq α] {r r' : List α} (all : List α) (h : r.Perm r') :
+    bagDiff all r = bagDiff all r' := by
+  unfold bagDiff
+  induction h generalizing all with
+  | nil => rfl
+  | cons x _ ih => simp only [List.foldl_cons]; exact ih _
+  | swap x y l => simp only [List.foldl_cons]; rw [List.erase_comm]
+  | trans _ _ ih1 ih2 => exact (ih1 all).trans (ih2 all)
+
+theorem noBetterDiscardedB_perm {F : Type} [LT F] [DecidableLT F] {k k' d d' : Pop F}
+    (hk : k.Perm k') (hd : d.Perm d') : noBetterDiscardedB k d = noBetterDiscardedB k' d' := by
+  simp only [noBetterDiscardedB]
+  rw [Bool.eq_iff_iff]
+  simp only [List.all_eq_true]
+  constructor
+  · intro H x hx y hy; exact H x (hk.mem_iff.2 hx) y (hd.mem_iff.2 hy)
+  · intro H x hx y hy; exact H x (hk.mem_iff.1 hx) y (hd.mem_iff.1 hy)
+
+/-- A carrier that is *not* a linear order: a value with a sign flag the order ignores (as `0.0` and
+`-0.0`): two different values tie, `TotalLE` holds, and the theorems apply. -/
+structure SZ where
+  v : Int
+  neg : Bool
+  deriving DecidableEq
+instance : Preorder SZ := Preorder.lift SZ.v
+instance : DecidableLE SZ := fun a b => inferInstanceAs (Decidable (a.v ≤ b.v))
+instance : DecidableLT SZ := fun a b => inferInstanceAs (Decidable (a.v < b.v))
 
 end MahfModel.Replacement
